@@ -20,14 +20,14 @@ void FivePointsNumericalDerivative::updateDerivatives(const ParameterList& param
     string lastVar;
     bool functionChanged = false;
     ParameterList p;
-    bool start = true;
     for (size_t i = 0; i < variables_.size(); ++i)
     {
       string var = variables_[i];
       if (!parameters.hasParameter(var))
         continue;
-      if (!start)
+      if (functionChanged)
       {
+        // also reset the parameter that was moved last
         vector<string> vars(2);
         vars[0] = var;
         vars[1] = lastVar;
@@ -36,10 +36,7 @@ void FivePointsNumericalDerivative::updateDerivatives(const ParameterList& param
       else
       {
         p = parameters.createSubList(var);
-        start = false;
       }
-      lastVar = var;
-      functionChanged = true;
       double value = function_->getParameterValue(var);
       double h = (1. + std::abs(value)) * h_;
       // Compute four other points:
@@ -79,14 +76,31 @@ void FivePointsNumericalDerivative::updateDerivatives(const ParameterList& param
       catch (ConstraintException& ce)
       {
         // Left limit raised, use forward approximation:
-        p[0].setValue(value + h);
-        function_->setParameters(p);
-        f4_ = function_->getValue();
-        p[0].setValue(value + 2 * h);
-        function_->setParameters(p);
-        f5_ = function_->getValue();
-        der1_[i] = (f4_ - f3_) / h;
-        der2_[i] = (f5_ - 2. * f4_ + f3_) / (h * h);
+        try
+        {
+          p[0].setValue(value + h);
+          function_->setParameters(p);
+          f4_ = function_->getValue();
+          p[0].setValue(value + 2 * h);
+          function_->setParameters(p);
+          f5_ = function_->getValue();
+          der1_[i] = (f4_ - f3_) / h;
+          der2_[i] = (f5_ - 2. * f4_ + f3_) / (h * h);
+        }
+        catch (ConstraintException& ce2)
+        {
+          // Both limits raised: no possibility to compute derivatives
+          der1_[i] = log(-1);
+          der2_[i] = log(-1);
+        }
+      }
+
+      // Only a parameter that was actually moved has to be reset later on
+      // (all probes may have been rejected by the constraint):
+      if (function_->getParameterValue(var) != value)
+      {
+        lastVar = var;
+        functionChanged = true;
       }
     }
     // Reset last parameter and compute analytical derivatives if any.
